@@ -105,9 +105,61 @@ def _json_default(o):
     return str(o)
 
 
+_FRESH_N = [0]
+
+
+def run_fresh(fn, arg, timeout=None):
+    """Run fn(arg) in a newly exec'd interpreter (see simkit/freshrun.py) and return its result."""
+    import shutil
+    import subprocess
+
+    timeout = timeout or RUN_TIMEOUT
+    _FRESH_N[0] += 1
+    # fixed-width names and a fixed environment: the child's start-up allocations must not depend on who started it
+    tag = "%07d%04d" % (os.getpid() % 10**7, _FRESH_N[0] % 10**4)
+    sdir = "/dev/shm/wsverif-fresh-" + tag
+    os.makedirs(sdir, exist_ok=True)
+    path = os.path.join(sdir, "job.json")
+    with open(path, "w") as f:
+        json.dump({"module": fn.__module__, "name": fn.__name__, "arg": arg, "timeout": timeout}, f)
+    root = os.path.dirname(os.path.dirname(os.path.abspath(__file__)))
+    env = {"PATH": "/usr/bin:/bin", "HOME": "/root", "PYTHONHASHSEED": os.environ.get("VERIF_HASHSEED", "0"), "VERIF_SCRATCH": sdir, "PYTHONWARNINGS": "ignore",
+           "VERIF_REPO": os.environ.get("VERIF_REPO", "/repo"), "PYTHONDONTWRITEBYTECODE": "1", "OMP_NUM_THREADS": "1",
+           "OPENBLAS_NUM_THREADS": "1", "MKL_NUM_THREADS": "1"}
+    try:
+        cmd = [sys.executable, "-m", "simkit.freshrun", path]
+        if os.path.exists("/usr/bin/setarch"):
+            # no address-space randomisation: the same allocation sequence then yields the same addresses, so even state
+            # keyed on id() of dead objects behaves identically in the sweep, the confirmation and the replay
+            cmd = ["/usr/bin/setarch", os.uname().machine, "-R"] + cmd
+        p = subprocess.Popen(cmd, cwd=root, env=env, stdout=subprocess.PIPE,
+                             stderr=subprocess.DEVNULL, start_new_session=True)
+        try:
+            out, _ = p.communicate(timeout=timeout + 60)
+        except subprocess.TimeoutExpired:
+            try:
+                os.killpg(p.pid, signal.SIGKILL)
+            except OSError:
+                pass
+            p.wait()
+            return {"outcome": "harness", "error": "HARNESS-TIMEOUT (fresh interpreter)"}
+        try:
+            os.killpg(p.pid, signal.SIGKILL)      # helper processes of the run (reference server)
+        except OSError:
+            pass
+        for line in reversed(out.decode("utf-8", "replace").splitlines()):
+            if line.startswith("RESULT "):
+                return json.loads(line[7:])
+        return {"outcome": "harness", "error": f"fresh interpreter ended without a result (exit {p.returncode})"}
+    finally:
+        shutil.rmtree(sdir, ignore_errors=True)
+
+
 def run_in_child(fn, arg, timeout=None):
     """Fork, run fn(arg) in the child, return its JSON-able result (or a harness record)."""
     timeout = timeout or RUN_TIMEOUT
+    if isinstance(arg, dict) and isinstance(arg.get("plan"), dict) and arg["plan"].get("fresh_process"):
+        return run_fresh(fn, arg, timeout)
     r, w = os.pipe()
     sys.stdout.flush()
     sys.stderr.flush()
